@@ -301,9 +301,6 @@ def plan(tier, seed):
             yield m
         for c in sched_cases:
             yield c
-        # line-granularity preemption directed at shared-state WRITE points (found by profiling each thread alone)
-        for (a, b, ka, kb) in WSCAN_PAIRS:
-            yield ("wscan", a, b, ka, kb)
         if tier == "thorough":
             for r in range(32):
                 yield ("stress", r)
@@ -320,7 +317,12 @@ def plan(tier, seed):
         "preemption_bound_completed": 1,
         "scheduling_points": REF["counts"],
     }
-    return {"space": space, "cases": gen(), "chunk": 24, "hash_distinct": True, "maxtasksperchild": 1}
+    # line-granularity preemption directed at shared-state WRITE points (found by profiling each thread alone): these cases take
+    # 5-20 s each, so each one leads its own chunk at the very beginning of the run
+    cases = list(gen())
+    for i, (a, b, ka, kb) in enumerate(WSCAN_PAIRS if tier == "thorough" else WSCAN_PAIRS[:4]):
+        cases.insert(i * 24, ("wscan", a, b, ka, kb))
+    return {"space": space, "cases": cases, "chunk": 24, "hash_distinct": True, "maxtasksperchild": 1}
 
 
 def _fp():
